@@ -111,7 +111,9 @@ func (upc *BroadcastRawUDPConn) ReadFrom(b []byte) (int, net.Addr, error) {
 			continue
 		}
 
-		if !buf.Has(udpHdrLen) {
+		// The IP payload must hold a complete UDP header: bytes past the IP
+		// total length are link-layer padding, not payload.
+		if int(ipHdr.payloadLength()) < udpHdrLen || !buf.Has(udpHdrLen) {
 			continue
 		}
 
